@@ -1789,6 +1789,14 @@ fn run_case(loc: &mut Local, x: &VIx, rng: &mut Rng, f: &Fmt, v: &Val) {
             }
         }
     }
+    // 2c. the deprecated zone-side entry point: `tz.datetime_from_str(text, fmt)` reads the text as a
+    // wall clock of that zone (text without an offset) or checks the offset in the text against the zone
+    #[allow(deprecated)]
+    if rng.chance(1, 4) && (f.target == Target::Naive || (f.target == Target::Zoned && v.off == 0)) {
+        use chrono::Utc;
+        let r = guard(|| Utc.datetime_from_str(&text, &f.text).map(|x| if f.target == Target::Naive { got_n(&x.naive_utc()) } else { got_z(&x.fixed_offset()) }));
+        settle(loc, f, v, class, "Utc.datetime_from_str", "", &text, r);
+    }
     // 3. parse_and_remainder
     {
         loc.bucket(x.rem);
